@@ -942,12 +942,12 @@ def step (s : St) (op : List String) (impl : Option (List String)) : St × Strin
       | some (_, cls, w, f, _) =>
         let b := yn == "1"
         if which == "1" && cls ≥ 1 then
-          let f' := { f with d1on := b }
+          let f' := f.enableFirst b
           let out := showBool f'.d1on ++ " " ++ showBool f'.d1on ++ " " ++ showBool f'.d2on
           ({ s with world := { s.world with fns := s.world.fns.set w.fn f' } }, out,
             match impl with | some t => if " ".intercalate t == out then "ok" else "FAIL:enable_delegates" | none => "-")
         else if which == "2" && cls ≥ 2 then
-          let f' := { f with d2on := b }
+          let f' := f.enableSecond b
           let out := showBool f'.d2on ++ " " ++ showBool f'.d1on ++ " " ++ showBool f'.d2on
           ({ s with world := { s.world with fns := s.world.fns.set w.fn f' } }, out,
             match impl with | some t => if " ".intercalate t == out then "ok" else "FAIL:enable_delegates" | none => "-")
